@@ -76,6 +76,18 @@ def build_arrays(inp: dict):
     if order == "F":
         pred = np.asfortranarray(pred)
         ref = np.asfortranarray(ref)
+    if inp.get("strided"):
+        def view(a):
+            big = np.zeros(tuple(2 * n for n in a.shape), dtype=a.dtype)
+            v = big[tuple(slice(None, None, 2) for _ in a.shape)]
+            v[...] = a
+            return v
+        pred, ref = view(pred), view(ref)
+    if inp.get("alias"):
+        ref = pred
+    if inp.get("readonly"):
+        pred.flags.writeable = False
+        ref.flags.writeable = False
     return pred, ref
 
 
